@@ -285,6 +285,14 @@ def materialise(root, sysd, order, table_in_dir):
     if table_in_dir:
         with open(os.path.join(root, "clock-offsets.txt"), "w") as f:
             f.write(offsets_table(sysd))
+    if sysd.get("_emptypart"):
+        # a stream that is not a thread (the emulator ignores it) and holds no event at all
+        d = os.path.join(root, "loom.%s" % loom_name(lay[0]["loom"], sysd), "proc.%d" % lay[0]["pid"], "aux.0")
+        os.makedirs(d, exist_ok=True)
+        with open(os.path.join(d, "stream.json"), "w") as f:
+            json.dump({"version": 3, "ovni": {"part": "aux", "lib": {"version": "1.11.0", "commit": "x"}}}, f)
+        with open(os.path.join(d, "stream.obs"), "wb") as f:
+            f.write(obs.HDR)
     if sysd.get("_symlink"):
         # traces gathered from several nodes with `ln -s`: the loom (or thread) directory of the last stream
         # lives outside the trace directory and is reached through a symbolic link of the same name
@@ -630,6 +638,10 @@ def main(pid, tier):
             c["_offfmt"] = "exp"
         elif i % 4 == 3:
             c["_offfmt"] = "fix"
+    #  _emptypart: an additional stream that is not a thread and has no events
+    for i, c in enumerate(cases):
+        if i % 6 == 4:
+            c["_emptypart"] = True
     #  _symlink  : the loom / thread directory of one stream is a symbolic link to a directory elsewhere
     nsl = 0
     for i, c in enumerate(cases):
